@@ -7,11 +7,19 @@
 (* pending queues are not disturbed by the observer).  The case is         *)
 (* accepted iff the eager rule book ArgList!Step, folded over the          *)
 (* operations, returns the same values and ends in the same lists.         *)
-(*   rets[k]  what operation k returned: a list for read/rev/native,       *)
+(* A case is a record (short field names: TLC's JSON reader is the         *)
+(* bottleneck of a batch)                                                  *)
+(*   id       number of the case in the batch                              *)
+(*   s        the history as a path through the exported operation space   *)
+(*            (s[k] = index into T.ops[n] with n the number of live        *)
+(*            objects before operation k), or                              *)
+(*   ops      the history as explicit operations [k, o, b, i]              *)
+(*   g, f     gnu (0/1), fin (0/1)                                         *)
+(*   r[k]     what operation k returned: a list for read/rev/native,       *)
 (*            <<n>> for len and remove, <<>> otherwise, <<-1>> = it raised *)
-(*   fin = 0  obs[o] = [l |-> list(o), n |-> o.to_native(copy=True),       *)
-(*                      l2 |-> list(o) again]                              *)
-(*   fin = 1  obs[o] = [n |-> o.to_native()] (in place, first observation) *)
+(*   f = 0    o[j] = << list(obj j), obj.to_native(copy=True),             *)
+(*                      list(obj j) again >>                               *)
+(*   f = 1    o[j] = << <<>>, obj.to_native() (in place), <<>> >>          *)
 (***************************************************************************)
 EXTENDS ArgList, TLC, Json, IOUtils
 
@@ -31,43 +39,54 @@ ToIdx(s) == [j \in 1..Len(s) |-> IdxOf(s[j])]
 V(c, clause, step, obj, exp, got) ==
     [id |-> c.id, clause |-> clause, step |-> step, obj |-> obj, expected |-> exp, got |-> got]
 
+\* number of operations of the case
+NOps(c) == Len(c.r)
+\* operation k of the case when n objects are alive
+OpAt(c, k, n) == IF "s" \in DOMAIN c THEN ToOp(T.ops[n][c.s[k]]) ELSE ToOp(c.ops[k])
+
+\* verdicts of the final observation (at most one per case: the first object that differs)
 Final(c, objs) ==
-    LET gnu == c.gnu = 1
-        badL(o)  == c.fin = 0 /\ ToArgs(c.obs[o].l) # objs[o]
-        badN(o)  == ToArgs(c.obs[o].n) # NativeOf(objs[o], gnu)
-        badL2(o) == c.fin = 0 /\ ToArgs(c.obs[o].l2) # objs[o]
+    LET gnu == c.g = 1
+        badL(o)  == c.f = 0 /\ ToArgs(c.o[o][1]) # objs[o]
+        badN(o)  == ToArgs(c.o[o][2]) # NativeOf(objs[o], gnu)
+        badL2(o) == c.f = 0 /\ ToArgs(c.o[o][3]) # objs[o]
         bad(o)   == badL(o) \/ badN(o) \/ badL2(o)
-    IN IF Len(c.obs) # Len(objs) THEN V(c, "ObjectCount", Len(c.ops) + 1, 0, <<Len(objs)>>, <<Len(c.obs)>>)
+    IN IF Len(c.o) # Len(objs) THEN <<V(c, "ObjectCount", NOps(c) + 1, 0, <<Len(objs)>>, <<Len(c.o)>>)>>
        ELSE IF \E o \in 1..Len(objs) : bad(o)
        THEN LET o == CHOOSE o \in 1..Len(objs) : bad(o) /\ \A h \in 1..(o - 1) : ~ bad(h) IN
-            IF badL(o) THEN V(c, "FinalList", Len(c.ops) + 1, o, ToIdx(objs[o]), c.obs[o].l)
-            ELSE IF badN(o) THEN V(c, IF c.fin = 0 THEN "FinalNativeCopy" ELSE "FinalNativeInPlace", Len(c.ops) + 1, o,
-                                   ToIdx(NativeOf(objs[o], gnu)), c.obs[o].n)
-            ELSE V(c, "ListChangedByNativeCopy", Len(c.ops) + 1, o, ToIdx(objs[o]), c.obs[o].l2)
-       ELSE V(c, "ok", 0, 0, <<>>, <<>>)
+            IF badL(o) THEN <<V(c, "FinalList", NOps(c) + 1, o, ToIdx(objs[o]), c.o[o][1])>>
+            ELSE IF badN(o) THEN <<V(c, IF c.f = 0 THEN "FinalNativeCopy" ELSE "FinalNativeInPlace", NOps(c) + 1, o,
+                                     ToIdx(NativeOf(objs[o], gnu)), c.o[o][2])>>
+            ELSE <<V(c, "ListChangedByNativeCopy", NOps(c) + 1, o, ToIdx(objs[o]), c.o[o][3])>>
+       ELSE <<>>
 
-RECURSIVE Walk(_, _, _)
-Walk(c, objs, k) ==
-    IF k > Len(c.ops) THEN Final(c, objs)
-    ELSE LET op  == ToOp(c.ops[k])
-             got == c.rets[k]
-         IN IF op.o \notin 1..Len(objs) THEN V(c, "HarnessBadObject", k, op.o, <<>>, <<>>)
-            ELSE LET r == Step(objs, op, c.gnu = 1) IN
-                 IF op.k \in Readers
-                 THEN IF ToArgs(got) = r.ret THEN Walk(c, r.objs, k + 1)
-                      ELSE IF op.k = "rev" /\ got = <<-1>> THEN V(c, "ReversedRaised", k, op.o, ToIdx(r.ret), got)
-                      ELSE V(c, "ReadReturn", k, op.o, ToIdx(r.ret), got)
-                 ELSE IF got = r.ret THEN Walk(c, r.objs, k + 1)
-                      ELSE IF op.k = "len" /\ Len(got) = 1 /\ got[1] > r.ret[1]
-                           THEN V(c, "LenMoreThanEagerLength", k, op.o, r.ret, got)
-                      ELSE V(c, "CallReturn", k, op.o, r.ret, got)
+\* fold the rule book over the history.  The eager state does not depend on what the implementation
+\* returned, so the walk continues after a wrong return value and every deviation of the case is
+\* reported (acc), not only the first one.
+RECURSIVE Walk(_, _, _, _)
+Walk(c, objs, k, acc) ==
+    IF k > NOps(c) THEN acc \o Final(c, objs)
+    ELSE LET op  == OpAt(c, k, Len(objs))
+             got == c.r[k]
+         IN IF op.o \notin 1..Len(objs) THEN Append(acc, V(c, "HarnessBadObject", k, op.o, <<>>, <<>>))
+            ELSE LET r == Step(objs, op, c.g = 1)
+                     v == IF op.k \in Readers
+                          THEN IF ToArgs(got) = r.ret THEN <<>>
+                               ELSE IF op.k = "rev" /\ got = <<-1>> THEN <<V(c, "ReversedRaised", k, op.o, ToIdx(r.ret), got)>>
+                               ELSE <<V(c, "ReadReturn", k, op.o, ToIdx(r.ret), got)>>
+                          ELSE IF got = r.ret THEN <<>>
+                               ELSE IF op.k = "len" /\ Len(got) = 1 /\ got[1] > r.ret[1]
+                                    THEN <<V(c, "LenMoreThanEagerLength", k, op.o, r.ret, got)>>
+                               ELSE <<V(c, "CallReturn", k, op.o, r.ret, got)>>
+                 IN Walk(c, r.objs, k + 1, acc \o v)
 
-Judge(c) == Walk(c, << <<>> >>, 1)
+\* the deviations of one case (<<>> = accepted)
+Judge(c) == Walk(c, << <<>> >>, 1, <<>>)
 
 Init == i \in 1..Len(Cases) /\ done = FALSE
 Next == /\ ~ done
         /\ done' = TRUE
         /\ i' = i
-        /\ LET v == Judge(Cases[i]) IN v.clause = "ok" \/ PrintT(ToJson(v))
+        /\ LET vs == Judge(Cases[i]) IN vs = <<>> \/ PrintT(ToJson(vs))
 Spec == Init /\ [][Next]_vars
 =============================================================================
